@@ -24,7 +24,7 @@ from mc.ref import typing as rt
 PROPERTY = "C14"
 MAXTASKS = 50
 RULE = (
-    "every sequence of <=2 operations (<=3 in thorough) from an alphabet of 45 concrete operations, every "
+    "every sequence of <=2 operations (<=3 in thorough) from an alphabet of 49 concrete operations, every "
     "sequence of 3 (4 in thorough) over a reduced 14-operation alphabet; "
     "operations range over 5 environments (module default, two instances, a subclass with "
     "max_recursion_depth=2, a subclass registering its own function), 8 queries and 4 documents, each "
@@ -62,6 +62,7 @@ Q = {
     "qSl": "$.s[-2:]",
     "qR": "$.s[::-1]",
     "qN": "$.l[?@.b == 'ab' || !@.a]",
+    "qBad": "$.l[?match(@.b, '\\\\d+') || search(@.b, '(?i)a') || match(@.b, $.x)]",
 }
 ENVS = ["D", "E1", "E2", "S", "SF"]
 F_IMPL = {"E1": 1, "E2": 2, "SF": 3, "D": 4, "S": 5}  # f1(x) is true iff x == this number
@@ -91,6 +92,10 @@ def ops_alphabet(tier_small=False):
     ops += [("recompile_after_unregister", "E1"), ("recompile_after_unregister", "D"),
             ("recompile_after_resignature", "E2"), ("recompile_after_range_change", "E1"),
             ("refind_after_range_change", "E2")]
+    # many rejected compilations on one environment: nothing may be left behind in its parser / lexer
+    ops += [("reject_many", "E1"), ("reject_many", "D")]
+    # a valid pattern, then patterns that are not I-Regexps (twice): always false, whatever came before
+    ops += [("valid_then_invalid_pattern", "E1"), ("valid_then_invalid_pattern", "D")]
     if tier_small:
         keep = {("compile", "E1", "qA"), ("compile", "E1", "qF"), ("compile", "E2", "qF"), ("apply", 0, "d1"),
                 ("apply", 0, "d3"), ("apply", 1, "d2"), ("find", "E2", "qF", "d1"), ("mfind", "qF", "d1"),
@@ -322,6 +327,30 @@ def run_history(hist):
             w.mutate(d)
             exp = m.expect(e, q, d, w.docs)
             obs = observe(lambda: w.env(e).find(Q[q], w.docs[d]))
+        elif kind == "valid_then_invalid_pattern":
+            _, e = op
+            env = w.env(e)
+            exp = obs = ("ok", None)
+            for q in ("qM", "qBad", "qBad", "qS", "qBad"):
+                ex = m.expect(e, q, "d1", w.docs)
+                ob = observe(lambda: env.find(Q[q], w.docs["d1"]))
+                if tuple(ex) != tuple(ob[:2]):
+                    exp, obs = ex, ob
+                    break
+        elif kind == "reject_many":
+            _, e = op
+            env = w.env(e)
+            bad = 0
+            for n in range(70):
+                inner = "(" * (n % 7) + "@.a == nosuch(" + "(1)" * (n % 3) + ")" + ")" * (n % 7)
+                for q in (f"$[?{inner}]", f"$[?@.a && ({'!' * (n % 2)}(@.b ||", f"$[?count(@[?@[?length({n})]]) ]", f"$[?'{n}]"):
+                    try:
+                        env.compile(q)
+                    except Exception as ex:  # noqa: BLE001
+                        if "JSONPathError" in [c.__name__ for c in type(ex).__mro__]:
+                            bad += 1
+            exp = ("ok", None)
+            obs = ("ok", None) if bad == 280 else ("err", f"only {bad} of 280 invalid queries were rejected with a JSONPathError")
         elif kind in ("recompile_after_range_change", "refind_after_range_change"):
             # the integer range of ONE environment instance is narrowed between two uses of the same text
             _, e = op
